@@ -41,7 +41,7 @@ var hashedStores = []string{"acc", "bank", "distribution", "downtimedetector", "
 	"poolincentives", "poolmanager", "protorev", "staking", "twap", "txfees"}
 
 var (
-	seeds8 = []string{"bal2", "bal2x", "bal3", "stable2", "stable2s", "stable3", "chain", "worn", "thin"}
+	seeds8 = []string{"bal2", "bal2x", "bal3", "stable2", "stable2s", "stable3", "chain", "worn", "thin", "big"}
 	// base alphabet: 21 symbols in a one-pool state, 25 with two pools, 27 with three (one more when the joiner holds shares)
 	alphaBase = Alphabet{Creates: []Op{{K: "create", A: "B", C: 0}, {K: "create", A: "A", C: 4}}, MaxPools: 3, LPPools: 3, Ticks: []int{0, 1}}
 	// wide alphabet: + amount-1 swap, 3-hop exact-out, reversed single hops, joins by the creator / of 1 share unit / of the
@@ -106,6 +106,9 @@ func seedOps(name string) []Op {
 	case "thin":
 		// two thin weighted pools; the alphabet adds whale swaps into them
 		return []Op{{K: "create", A: "A", C: 10}, {K: "create", A: "B", C: 11}, tick}
+	case "big":
+		// 18-decimal-scale pools of both kinds; the alphabet adds all-asset joins and exits of an odd share amount
+		return []Op{{K: "create", A: "A", C: 12}, {K: "create", A: "B", C: 13}, tick}
 	case "bal4":
 		return []Op{{K: "create", A: "A", C: 8}, {K: "create", A: "B", C: 6}, tick}
 	case "bal8":
